@@ -16,10 +16,11 @@ import os
 
 import vlib
 
-KINDS = ["t1issuer", "t5issuer", "t2issuer", "t3issuer", "batch", "eckey", "edkey", "edfirst", "ecfirst"]
+KINDS = ["t1issuer", "t5issuer", "t2issuer", "t3issuer", "batch", "eckey", "edkey", "edfirst", "ecfirst", "t2raw", "t3raw"]
 # "edfirst"/"ecfirst": the same programs as edkey/eckey, each in a process of its own where the program's concurrent
 # calls are the first use of the package (lazy package-level tables behind sync.Once are initialised by racing goroutines)
-GEN_CFG = {"edfirst": "edkey", "ecfirst": "eckey"}
+# "t2raw"/"t3raw": the issuer programs on an issuer whose RSA key was assembled from its components (nothing precomputed)
+GEN_CFG = {"edfirst": "edkey", "ecfirst": "eckey", "t2raw": "t2issuer", "t3raw": "t3issuer"}
 
 
 def describe(e, case):
